@@ -3625,13 +3625,22 @@ impl XmlText {
         Ok(rest.is_empty() && content.children.is_empty())
     }
 
+    // a piece of an attribute value holds `]]>` and `>` as data; only markup is refused there
+    fn check_at(&self) -> fn(&str) -> error::Result<bool> {
+        if matches!(self.parent_item().as_deref(), Some(XmlItem::Attribute(_))) {
+            |value| Ok(!value.contains('<') && !value.contains('&'))
+        } else {
+            Self::check
+        }
+    }
+
     pub fn delete(&mut self, offset: usize, count: usize) -> error::Result<()> {
-        self.text = delete_char_range(self.text.as_str(), offset, count, Self::check)?;
+        self.text = delete_char_range(self.text.as_str(), offset, count, self.check_at())?;
         Ok(())
     }
 
     pub fn insert(&mut self, offset: usize, text: &str) -> error::Result<()> {
-        self.text = insert_char_at(self.text.as_str(), offset, text, Self::check)?;
+        self.text = insert_char_at(self.text.as_str(), offset, text, self.check_at())?;
         Ok(())
     }
 
